@@ -488,6 +488,21 @@ pub fn record(mode: &str, seed: u64, n: usize, out: &mut Out) {
                 let data = exact_payload(&mut r, &types, be);
                 out.calls += 1;
                 out.emit(construct_event(be, &types, &data), nt > 0);
+                if out.events % 211 == 17 {
+                    // string / raw fields around 32 KiB and at the 16-bit limit, each followed by another field
+                    for len in [0x7FFFusize, 0x8000, 0x8001, 0xFFFF] {
+                        for kind in [TypeInfoKind::Raw, TypeInfoKind::StringType] {
+                            let ts = vec![TypeInfo { kind: kind.clone(), coding: StringCoding::UTF8, has_variable_info: false, has_trace_info: false },
+                                          TypeInfo { kind: TypeInfoKind::Unsigned(TypeLength::BitLength16), coding: StringCoding::ASCII, has_variable_info: false, has_trace_info: false }];
+                            let mut d = if be { (len as u16).to_be_bytes().to_vec() } else { (len as u16).to_le_bytes().to_vec() };
+                            d.extend(std::iter::repeat(b'x').take(len));
+                            d.extend([1, 2]);
+                            out.calls += 2;
+                            out.emit(construct_event(be, &ts, &d), true);
+                            out.emit(construct_event(be, &ts, &d[..d.len() - 3]), true);
+                        }
+                    }
+                }
                 match r.below(4) {
                     0 => { let k = 1 + r.below(4) as usize; let mut d = data.clone(); d.extend(r.bytes(k)); out.calls += 1; out.emit(construct_event(be, &types, &d), nt > 0); }
                     1 => { for cut in 0..data.len().min(40) { out.calls += 1; out.emit(construct_event(be, &types, &data[..cut]), nt > 0); } }
@@ -515,7 +530,7 @@ pub fn record(mode: &str, seed: u64, n: usize, out: &mut Out) {
                     let be = r.coin();
                     let mut m = vec![if be { 0x27 } else { 0x25 }, 1, 0, 22];
                     m.extend(&idb[0..4]);
-                    m.extend([0x41, 1]);
+                    m.extend([0x40, 1]);   // non-verbose log: the 4 payload bytes are the message id
                     m.extend(&idb[4..12]);
                     m.extend([1, 2, 3, 4]);
                     let mut s = b"DLT\x01\0\0\0\0\0\0\0\0".to_vec();
